@@ -113,6 +113,7 @@ def step (st : St) (args : List String) : St × String × String :=
         | _ => "nil"
       both s' (if (s'.thr a).pc == .idle then o else "stuck")
   | ["walks"] => both s (walks s)
+  | ["qerr", _] => both s "ok"   -- a query abandoned by its visitor: no effect on the tree (and no lock left behind)
   | ["win", pA, vA, pB, vB] =>
       let r := window false s (decPath pA) vA.toNat! (decPath pB) vB.toNat!
       both r.1 r.2
